@@ -67,7 +67,8 @@ inductive Micro
   | coalesce
   | setErr (b : Bool)
   | nop
-  | setStaged (b : Bool)
+  | setStaged (b : Bool)        -- true: setPendingStagedHandoff(handoff, reloadStartedAt, …), also records the request time
+  | setMeta                    -- setPendingReloadMetadata(reloadStartedAt, …)
   | clearRet
   | beginHandoff               -- reloading.Store(true); notifyRunStateChange
   | startRet                   -- startControlPlaneRetirement: publishes a fresh retirementDone
@@ -211,9 +212,32 @@ structure St where
   /-- abort decision carried by the queued request / by the request the worker is processing. -/
   qAbort : Bool := false
   wAbort : Bool := false
+  /-- progress-file operations that have failed so far (a write error is dropped by every caller of
+  `setRunSignalProgress`, a read error makes `clearRejectedReloadProgress` return). -/
+  faults : Nat := 0
+  /-- model time (ns); `tick d` advances it. -/
+  now : Nat := 0
+  /-- `requestedAt` of the request in progress: the time its signal was taken (`time.Now()` in the
+  dispatch of the main select), carried by the request through the queue and `coalesceReloadRequest`
+  into the worker's `reloadStartedAt`. -/
+  reqAt : Nat := 0
+  /-- `pendingReloadRequestedAt` of the manager (`none` = the zero time), written by
+  `setPendingReloadMetadata` / `setPendingStagedHandoff` and read by `startControlPlaneRetirement`. -/
+  metaAt : Option Nat := none
   deriving DecidableEq, Repr
 
 def init : St := {}
+
+/-- the circumstances of the retirement that `startControlPlaneRetirement` starts NOW: what the
+environment decided (sessions, their end, the next reload's cancellation, dialer overlap), and what the
+system itself determines — the time since the request arrived as recorded in the manager
+(`time.Since(pendingReloadRequestedAt)`), and the abort decision of the request being processed
+(`req.abortConnections`, resp. `handoff.abortConnections` of the staged hand-off it prepared). -/
+def retScenarioOf (s : St) : RetScenario :=
+  { s.nextRet with
+    zeroStart := s.metaAt.isNone
+    age := (s.now : Int) - ((s.metaAt.getD 0 : Nat) : Int)
+    abort := s.wAbort }
 
 def busyOf (act : Bool) : Prog := if act then .busyActive else .busyRetiring
 
@@ -222,7 +246,7 @@ def busyOf (act : Bool) : Prog := if act then .busyActive else .busyRetiring
 def exec (s : St) : Micro → St × List Micro
   | .casQ k =>
     if s.pending then ({ s with marker := false }, [.writeBusy s.active])
-    else ({ s with pending := true, marker := false, qAbort := s.marker }, [.beginSend k])
+    else ({ s with pending := true, marker := false, qAbort := s.marker, reqAt := s.now }, [.beginSend k])
   | .beginSend k =>
     if s.queue.length < 1 then
       ({ s with suppress := s.suppress + 1, queue := s.queue ++ [k] }, [])
@@ -241,10 +265,11 @@ def exec (s : St) : Micro → St × List Micro
   | .coalesce => ({ s with queue := [] }, [])
   | .setErr b => ({ s with reloadErr := b }, [])
   | .nop => (s, [])
-  | .setStaged b => ({ s with staged := b }, [])
+  | .setStaged b => ({ s with staged := b, metaAt := if b then some s.reqAt else s.metaAt }, [])
+  | .setMeta => ({ s with metaAt := some s.reqAt }, [])
   | .clearRet => ({ s with retDone := none }, [])
   | .beginHandoff => ({ s with reloading := true, notify := true }, [])
-  | .startRet => ({ s with retDone := some false, mgrLeft := retireDoneAt s.nextRet }, [])
+  | .startRet => ({ s with retDone := some false, mgrLeft := retireDoneAt (retScenarioOf s) }, [])
   | .notifyM => ({ s with notify := true }, [])
   | .fatal => ({ s with exited := true }, [])
   | .storeReloading b => ({ s with reloading := b }, [])
@@ -260,6 +285,19 @@ def exec (s : St) : Micro → St × List Micro
                              gStore := s.gStore + 1 }, [])
   | .exitHold => ({ s with exited := true }, [])
   | .exitIdle => ({ s with exited := true }, [])
+
+/-- the same section with its progress-file operation FAILING (disk full, `/var/run` read-only, the
+file unreadable …): every caller drops the error of `setRunSignalProgress` (`_ = …`), so a failed write
+leaves the file as it was and the section goes on; `clearRejectedReloadProgress` returns on a read
+error, so a failed read skips the clean-up.  `none` for sections without file I/O. -/
+def execF (s : St) : Micro → Option (St × List Micro)
+  | .writeBusy _ => some (s, if s.pending then [] else [.readProg])
+  | .writeBusyForce => some (s, [])
+  | .readProg => some (s, [])
+  | .writeClr => some (s, [])
+  | .setProg _ => some (s, [])
+  | .setResult => some (s, [])
+  | _ => none
 
 /-! ## The path tables (what cmd/run.go does between the hook points) -/
 
@@ -286,7 +324,7 @@ def expand1 : Eff → List Micro
   | .setStaged => [.setStaged true]
   | .clearStaged => [.setStaged false]
   | .clearRet => [.clearRet]
-  | .setMeta => [.nop]
+  | .setMeta => [.setMeta]
   | .beginHandoff => [.beginHandoff]
   | .startRet => [.startRet]
   | .pprof => [.nop]
@@ -386,11 +424,16 @@ inductive Act
   | tick (d : Nat)                   -- time passes; not beyond the completion time of an open retirement
   | cliMark                          -- a `-a` client leaves the abort marker (just before it signals)
   | spuriousNotify                   -- a Serve goroutine ends: notifyRunStateChange
+  -- the same steps with the progress-file operation inside failing (the environment decides)
+  | stepMF | stepWF | gReadF | gWriteF
+  | swallowF (k : Kind)              -- signal consumed in the ready wait, the busy report cannot be written
+  | cliFail                          -- a `dae reload` client writes ReloadSend, its kill(2) fails, it restores the file
   deriving DecidableEq, Repr
 
 /-- environment inputs; everything else is the system's own progress. -/
 def Act.isExternal : Act → Bool
-  | .sig _ | .swallow _ | .term | .cliSend | .chooseRet _ | .tick _ | .cliMark | .spuriousNotify => true
+  | .sig _ | .swallow _ | .term | .cliSend | .chooseRet _ | .tick _ | .cliMark | .spuriousNotify
+  | .swallowF _ | .cliFail => true
   | _ => false
 
 def step (s : St) (a : Act) : Option St :=
@@ -441,9 +484,30 @@ def step (s : St) (a : Act) : Option St :=
   | .chooseRet sc => if 0 ≤ sc.age then some { s with nextRet := sc } else none
   | .cliMark => some { s with marker := true }
   | .spuriousNotify => some { s with notify := true }
+  | .stepMF =>
+    match s.m with
+    | [] => none
+    | x :: rest =>
+      match execF s x with
+      | some r => some { r.1 with m := r.2 ++ rest, faults := s.faults + 1 }
+      | none => none
+  | .stepWF =>
+    match s.w with
+    | [] => none
+    | x :: rest =>
+      match execF s x with
+      | some r => some { r.1 with w := r.2 ++ rest, faults := s.faults + 1 }
+      | none => none
+  | .gReadF => if 0 < s.gRead then some { s with gRead := s.gRead - 1, faults := s.faults + 1 } else none
+  | .gWriteF => if 0 < s.gWrite then some { s with gWrite := s.gWrite - 1, faults := s.faults + 1 } else none
+  | .swallowF _ =>
+    match s.m with
+    | .waitReady :: _ => some { s with marker := false, faults := s.faults + 1 }
+    | _ => none
+  | .cliFail => if s.progress.cliAccepts then some s else none
   | .tick d =>
     if (s.retDone != some false || decide (d ≤ s.mgrLeft)) && (s.gBlocked == 0 || decide (d ≤ s.gLeft)) then
-      some { s with mgrLeft := s.mgrLeft - d, gLeft := s.gLeft - d, muteLeft := s.muteLeft - d } else none
+      some { s with mgrLeft := s.mgrLeft - d, gLeft := s.gLeft - d, muteLeft := s.muteLeft - d, now := s.now + d } else none
 
 /-- run a schedule; `none` as soon as an action is not enabled. -/
 def runActs (s : St) : List Act → Option St
